@@ -13,7 +13,7 @@ import (
 
 func init() {
 	zv.Register(&zv.Prop{ID: "C18", Topic: "c18", Gen: gen, Exec: Exec,
-		Rule: "random Go struct types built with reflect.StructOf (nested structs/slices, optional/default/explicit/implicit/application/private/set/omitempty/string-kind tags, RawValue, *big.Int, OID, BitString, Flag, Enumerated, SET-named slices) with random values: Marshal compared with the model (bytes), strict Unmarshal of valid and mutated encodings compared with the model (value, rest); round trip + idempotence oracle on every in-domain value; every in-domain value is also sent to the decidable domain predicate InDomain of the Lean theorem (op d: the driver must answer `in`); time.Time stream (T3 only, not sent to the model): bare / struct / slice time fields with plain, utc, generalized, explicit/implicit/application/private tags (incl. tag numbers 23/24), optional; values on the years -1/0/1, 1949/1950/1951, 1999/2000, 2049/2050/2051, 2068/2069, 9999/10000 and the seconds around each window edge, zones of whole minutes / with seconds, fractional seconds; oracle = year outside 0..9999 rejected, reference encoder (expected UTCTime vs GeneralizedTime TLV), round trip to the second incl. zone offset, byte-identical re-marshal; hand-made and mutated UTCTime/GeneralizedTime contents decoded and compared with the harness reference parser (op tu); the generalized+IMPLICIT class (D26) is a sub-stream of its own (op tm26, emitted last); non-trivial = distinct case lines"})
+		Rule: "random Go struct types built with reflect.StructOf (nested structs/slices, optional/default/explicit/implicit/application/private/set/omitempty/string-kind tags, RawValue, *big.Int, OID, BitString, Flag, Enumerated, SET-named slices) with random values: Marshal compared with the model (bytes), strict Unmarshal of valid and mutated encodings compared with the model (value, rest); round trip + idempotence oracle on every in-domain value; every in-domain value is also sent to the decidable domain predicate InDomain of the Lean theorem (op d: the driver must answer `in`); time core stream (all model-compared, lean/ZV/Model/Time.lean): time.Parse with the three ASN.1 layouts on valid strings, every single-character replacement over a 19-character alphabet in 12 base strings, truncations / insertions / removals, every two-character year over the alphabet (atoi accepts a sign), every zone form (Z, +-0000..+-2500, +hh60, colon forms, fractions) and month/day/clock range, random edits (op tp); Time.Format incl. years outside 0..9999 and zones with seconds / beyond 24h (tf); time.Unix(..).In(zone) broken down and time.Date(..).Unix() on year boundaries, leap days, days 0 and 32 (tc, td); parseUTCTime / parseGeneralizedTime on every content of the tu stream with a canonical-decoding oracle (tpc); appendUTCTime / appendGeneralizedTime on the window and year boundaries in zones of whole minutes, with seconds and beyond 24h, with the content round-trip oracle (tac); time.Time stream (T3; lines whose schema is a bare `time` - all of tu, and tm/tm26 with schema time - are also model-compared, lean/ZV/Model/C18Time.lean): bare / struct / slice time fields with plain, utc, generalized, explicit/implicit/application/private tags (incl. tag numbers 23/24), optional; values on the years -1/0/1, 1949/1950/1951, 1999/2000, 2049/2050/2051, 2068/2069, 9999/10000 and the seconds around each window edge, zones of whole minutes / with seconds, fractional seconds; oracle = year outside 0..9999 rejected, reference encoder (expected UTCTime vs GeneralizedTime TLV), round trip to the second incl. zone offset, byte-identical re-marshal; hand-made and mutated UTCTime/GeneralizedTime contents decoded and compared with the harness reference parser (op tu); the generalized+IMPLICIT class (D26) is a sub-stream of its own (op tm26, emitted last); non-trivial = distinct case lines"})
 }
 
 // UnmarshalDump runs the real Unmarshal and renders (value, len(rest)) canonically.
@@ -140,6 +140,9 @@ func execMarshal(s *Sch, t reflect.Type, tag, arg string, tagset map[string]bool
 }
 
 func Exec(line string) zv.Out {
+	if out, ok := execTimeCore(strings.Fields(line)); ok {
+		return out
+	}
 	op, s, t, tag, arg := parseLine(line)
 	tagset := map[string]bool{"op:" + op: true}
 	kindTags(s, tag, tagset)
@@ -147,9 +150,13 @@ func Exec(line string) zv.Out {
 	switch op {
 	case "m":
 		out = execMarshal(s, t, tag, arg, tagset, false)
-	case "tm", "tm26": // time.Time stream: T3 only (time is not in the Lean model)
+	case "tm", "tm26": // time.Time stream: model-compared for a bare time.Time, T3 only for time fields inside structs / slices
 		out = execMarshal(s, t, tag, arg, tagset, true)
-		out.Go = ""
+		if s.Kind != "time" {
+			out.Go = ""
+		} else {
+			tagset["time:model-compared"] = true
+		}
 	case "tu":
 		out = execTimeDecode(tag, unhx(arg), tagset)
 	case "d": // the harness' documented domain must lie inside the domain of the Lean theorem (driver prints in/out)
@@ -321,6 +328,8 @@ func gen(g *zv.Gen) {
 			}
 		}()
 	}
-	// time.Time (T3 only); its last lines are the D26 class
+	// time core (calendar, time.Parse / Format, content parsers and encoders): all model-compared
+	genTimeCore(g)
+	// time.Time; its last lines are the D26 class
 	genTime(g)
 }
